@@ -837,13 +837,17 @@ def check_modifiers(tier, out):
         before = view(u)
         out.note(before["raw_user"] is not None or before["explicit_port"] is not None, {"url": s, "view": {k: before[k] for k in fields}})
         for name, fn, may_change, reads_back in mods:
+            inp = {"url": s, "modifier": name}
             try:
                 w = fn(u)
-            except (ValueError, TypeError):
+            except (ValueError, TypeError) as e:
+                # every URL of the corpus is absolute and every argument valid: only with_name /
+                # with_suffix may refuse (a URL without a name)
+                if not name.startswith(("with_name", "with_suffix")):
+                    out.fail("a modifier rejected a valid argument", inp, f"{type(e).__name__}: {e}", "a URL")
                 continue
             after = view(w)
             changed = {f for f in fields if after[f] != before[f]}
-            inp = {"url": s, "modifier": name}
             if not changed <= may_change:
                 out.fail("a modifier changed a component other than its own", inp, {f: (before[f], after[f]) for f in sorted(changed - may_change)}, "unchanged")
             elif not reads_back(after):
@@ -1167,8 +1171,7 @@ def _memo_coherent(u, inp, out, when):
         try:
             want = hash(c) if k == "hash" else getattr(c, k)
         except AttributeError:
-            out.fail(f"memo entry without an accessor ({when})", inp, k, "a memoised accessor name")
-            continue
+            continue        # a private entry that no accessor reads back: not observable through the API
         except Exception as e:  # noqa: BLE001
             out.fail(f"memo entry present where the accessor raises ({when})", inp, (k, v), f"{type(e).__name__}")
             continue
